@@ -1030,6 +1030,90 @@ pub fn gen_v2_mutant(t: &mut Tape) -> (Vec<u8>, &'static str) {
     }
 }
 
+/// A small edit of `x` that keeps most of it (so that the two inputs share a long prefix, a field, or everything):
+/// used to build chains of related inputs judged back to back.
+pub fn gen_related(t: &mut Tape, x: &[u8]) -> Vec<u8> {
+    let mut y = x.to_vec();
+    let cr = y.iter().position(|&b| b == b'\r');
+    match t.below(12) {
+        0 => {}
+        1 | 2 => {
+            // one more digit at the end of the last field (just before the first CR, else at the very end)
+            let at = cr.unwrap_or(y.len());
+            y.insert(at, b'0' + t.below(10) as u8);
+        }
+        3 => {
+            // the last field loses its last character
+            let at = cr.unwrap_or(y.len());
+            if at > 0 {
+                y.remove(at - 1);
+            }
+        }
+        4 => {
+            if !y.is_empty() {
+                let at = t.below(y.len() as u32) as usize;
+                y[at] = *t.pick(&[b'0', b'1', b'9', b'a', b'f', b':', b'.', b' ', 0u8, 0xff]);
+            }
+        }
+        5 => {
+            // same header, different bytes behind it
+            let (tr, _) = gen_trailer(t, false);
+            let keep = cr.map(|p| (p + 2).min(y.len())).unwrap_or(y.len());
+            y.truncate(keep);
+            y.extend_from_slice(&tr);
+        }
+        6 => {
+            let k = t.below(y.len() as u32 + 1) as usize;
+            y.truncate(k);
+        }
+        7 => {
+            // a digit inside some field changes
+            let digits: Vec<usize> = y.iter().enumerate().filter(|(_, b)| b.is_ascii_digit()).map(|(i, _)| i).collect();
+            if !digits.is_empty() {
+                let at = digits[t.below(digits.len() as u32) as usize];
+                y[at] = b'0' + t.below(10) as u8;
+            }
+        }
+        8 => {
+            if !y.is_empty() {
+                let at = t.below(y.len() as u32) as usize;
+                y[at] ^= 1 << t.below(8);
+            }
+        }
+        9 => {
+            // case change of the hex digits / keywords
+            if t.coin() {
+                y.make_ascii_uppercase();
+            } else {
+                y.make_ascii_lowercase();
+            }
+        }
+        10 => {
+            // last byte of the input changes (v2: last payload byte)
+            if let Some(b) = y.last_mut() {
+                *b = b.wrapping_add(1 + t.below(255) as u8);
+            }
+        }
+        _ => {
+            // an extra byte appended
+            y.push(t.byte());
+        }
+    }
+    y
+}
+
+/// A chain: a base input followed by 1..=3 inputs each related to its predecessor (or to the base).
+pub fn gen_chain(t: &mut Tape, base: &dyn Fn(&mut Tape) -> Vec<u8>) -> crate::engine::Chain {
+    let x0 = base(t);
+    let n = 1 + t.below(3) as usize;
+    let mut out = vec![x0];
+    for _ in 0..n {
+        let from = if t.coin() { out.last().unwrap().clone() } else { out[0].clone() };
+        out.push(gen_related(t, &from));
+    }
+    crate::engine::Chain(out)
+}
+
 /// G-ANYBYTES: the union of all byte-level generators.
 pub fn gen_any_bytes(t: &mut Tape) -> (Vec<u8>, &'static str) {
     match t.weighted(&[4, 6, 2, 2, 3, 3, 2]) {
